@@ -70,6 +70,10 @@ func (d *DatasourceExecuting) Run(ctx ExecutionContext, produce ProduceFn, metaS
 
 			if octosql.Int.Is(d.fields[i].Type) == octosql.TypeRelationIs {
 				integer, err := fastfloat.ParseInt64(str)
+				if err != nil {
+					// The schema is inferred with strconv, which accepts more syntax than fastfloat (i.e. "+1").
+					integer, err = strconv.ParseInt(str, 10, 64)
+				}
 				if err == nil {
 					values[i] = octosql.NewInt(integer)
 					continue
@@ -78,6 +82,10 @@ func (d *DatasourceExecuting) Run(ctx ExecutionContext, produce ProduceFn, metaS
 
 			if octosql.Float.Is(d.fields[i].Type) == octosql.TypeRelationIs {
 				float, err := fastfloat.Parse(str)
+				if err != nil {
+					// The schema is inferred with strconv, which accepts more syntax than fastfloat (i.e. ".5", "5.", "+1.5").
+					float, err = strconv.ParseFloat(str, 64)
+				}
 				if err == nil {
 					values[i] = octosql.NewFloat(float)
 					continue
